@@ -24,6 +24,7 @@ type Query struct {
 	// still sound).
 	quantDefs map[int]string
 	axioms    map[string]bool
+	off0      map[string]bool
 }
 
 func newQuery(u *Universe) *Query {
@@ -118,6 +119,9 @@ type State struct {
 	ghost map[string]string // ghost scalars/arrays by name
 	// registered defers (flag terms by defer instruction id)
 	deferFlags map[int]string
+	// probe mode: heap reads return formal names and are recorded (used to
+	// build the definition of opaque predicates)
+	probe map[string]bool
 }
 
 var epochCounter int
@@ -175,6 +179,13 @@ func (q *Query) keySort(key string) (string, bool) {
 }
 
 func (s *State) get(key string) string {
+	if s.probe != nil {
+		if _, ok := s.q.keySort(key); !ok {
+			panic("undeclared heap key " + key)
+		}
+		s.probe[key] = true
+		return "H_" + sanitize(key)
+	}
 	if t, ok := s.heap[key]; ok {
 		return t
 	}
@@ -481,3 +492,99 @@ func (q *Query) ghostEntry(key string) string {
 // immutableHeapKeys: fields declared immutable (written only during
 // construction) survive every havoc.
 var immutableHeapKeys = map[string]bool{}
+
+// Slices whose offset is known to be zero are tracked by term so that
+// element indices stay free of arithmetic (important for quantifier
+// instantiation).
+func (q *Query) markOff0(term string) {
+	if q.off0 == nil {
+		q.off0 = map[string]bool{}
+	}
+	q.off0[term] = true
+}
+
+func (q *Query) isOff0(term string) bool {
+	if q.off0[term] {
+		return true
+	}
+	if term == "nil_slice" || term == "(mk_slice 0 0 0 0)" {
+		return true
+	}
+	if strings.HasPrefix(term, "(mk_slice ") {
+		args := sexprArgs(term)
+		if len(args) == 5 && args[2] == "0" {
+			return true
+		}
+	}
+	return false
+}
+
+func (q *Query) offOf(s string) string {
+	if q.isOff0(s) {
+		return "0"
+	}
+	return "(s_off " + s + ")"
+}
+
+// idxOf: absolute index of element i of slice s in its backing array.
+func (q *Query) idxOf(s, i string) string {
+	if q.isOff0(s) {
+		return i
+	}
+	return "(+ (s_off " + s + ") " + i + ")"
+}
+
+// sexprArgs splits "(f a (g b) c)" into ["f","a","(g b)","c"].
+func sexprArgs(t string) []string {
+	t = strings.TrimSpace(t)
+	if len(t) < 2 || t[0] != '(' || t[len(t)-1] != ')' {
+		return nil
+	}
+	body := t[1 : len(t)-1]
+	var out []string
+	depth, start := 0, -1
+	inStr, inBar := false, false
+	for i := 0; i < len(body); i++ {
+		c := body[i]
+		switch {
+		case inStr:
+			if c == '"' {
+				inStr = false
+			}
+		case inBar:
+			if c == '|' {
+				inBar = false
+			}
+		case c == '"':
+			inStr = true
+			if start < 0 {
+				start = i
+			}
+		case c == '|':
+			inBar = true
+			if start < 0 {
+				start = i
+			}
+		case c == '(':
+			if start < 0 {
+				start = i
+			}
+			depth++
+		case c == ')':
+			depth--
+		case c == ' ' || c == '\n':
+			if depth == 0 && start >= 0 {
+				out = append(out, body[start:i])
+				start = -1
+			}
+		default:
+			if start < 0 {
+				start = i
+			}
+		}
+	}
+	if start >= 0 {
+		out = append(out, body[start:])
+	}
+	return out
+}
